@@ -889,8 +889,9 @@ package server
 // of group operations hand out identical assignments for the same group epoch")
 //@ func (*consumerGroup).StartRecovered serves C12
 //@   requires c != nil
-//@   modifies c.recovered, all(consumer.timer)
 //@   ensures [recovery-ended] !c.recovered
+//@   ensures [the-epoch-and-the-tables-are-what-the-replay-left] c.epoch == old(c.epoch) && c.members == old(c.members) && c.subscribers == old(c.subscribers) && c.coordinator == old(c.coordinator)
+//@   ensures [no-member-is-handed-or-loses-a-partition] forall m *consumer :: m != nil ==> m.assignedCount == old(m.assignedCount) && m.assignments == old(m.assignments)
 // assignments are served only by the coordinator and only for the current epoch
 //@ func (*consumerGroup).GetAssignments serves C12
 //@   returns (assignments, gepoch, err)
